@@ -40,6 +40,8 @@ def handleL4 (req ans : String) : Verdict :=
   | [head, srcE, inE] =>
     match words head, pctDecode srcE.trimAscii.toString, pctDecode inE.trimAscii.toString with
     | ["cli", flag], some src, some inp =>
+      if ans.startsWith "NONDET" then
+        { model := ans, specOk := false, spec := "identical output on repeated runs (C19)", nontrivial := true } else
       let r := runCLI src (splitLines inp) (flag == "i") 200000
       let model := fmtCli r
       if r.budget then { model := ans, specOk := true, spec := "(model budget exhausted: not compared)", nontrivial := false } else
